@@ -30,7 +30,8 @@
 (*                                Miss(c)            b.cache.Load(target) misses                                *)
 (*                                Lead(c) / Follow(c) b.sfg.Do(target, ..): leader calls Resolve, others wait   *)
 (*                                LeadEndOk(c,n)     resolver.Resolve returns a result                          *)
-(*                                LeadEndErr(c)      .. or an error: the flight ends, everybody gets the error  *)
+(*                                LeadEndErr(c)      .. or an error                                             *)
+(*                                LeadFail(c)        sfg.Do returns: the flight ends, everybody gets the error  *)
 (*                                LeadRebalance(c)   res.Store; expire=0; balancer.Rebalance(res);              *)
 (*                                                   b.cache.Store(target, cache); the flight ends              *)
 (*                                Pick(c,x)          balancer.Pick(result) (weightedBalancer: cached weight     *)
@@ -139,15 +140,21 @@ LeadEndOk(c, n) ==
     /\ Obs([ev |-> "ResolveEnd", p |-> c, k |-> pc[c].k, v |-> nres + 1, n |-> n])
     /\ UNCHANGED <<cache, ent, bal, flight, left>> /\ KeepBg
 
-\* Resolve fails: sfg.Do returns the error to the leader and to every follower; nothing is stored
+\* Resolve fails (nothing is stored); the flight is still registered until sfg.Do returns: LeadFail
 LeadEndErr(c) ==
     /\ At(c, "resolve") /\ CanFail
+    /\ pc' = [pc EXCEPT ![c].at = "failed"]
+    /\ Obs([ev |-> "ResolveEnd", p |-> c, k |-> pc[c].k, v |-> 0, n |-> 0])
+    /\ UNCHANGED <<nres, ver, cache, ent, bal, flight, left>> /\ KeepBg
+
+\* sfg.Do returns the error to the leader and to every caller that joined the flight up to now
+LeadFail(c) ==
+    /\ At(c, "failed")
     /\ flight' = [flight EXCEPT ![pc[c].k] = NoFlight]
     /\ pc' = [d \in Callers |->
                 IF d = c \/ (pc[d].at = "follow" /\ pc[d].k = pc[c].k)
                 THEN [pc[d] EXCEPT !.at = "error"] ELSE pc[d]]
-    /\ Obs([ev |-> "ResolveEnd", p |-> c, k |-> pc[c].k, v |-> 0, n |-> 0])
-    /\ UNCHANGED <<nres, ver, cache, ent, bal, left>> /\ KeepBg
+    /\ Silent /\ UNCHANGED <<nres, ver, cache, ent, bal, left>> /\ KeepBg
 
 \* cache.res.Store(res); expire = 0; b.balancer.Rebalance(res); b.cache.Store(target, cache); sfg.Do returns:
 \* leader and followers continue with the new entry, having (re)set its flag and loaded its result
@@ -185,7 +192,7 @@ Return(c) ==
 CallerStep(c) == \/ \E k \in Keys : Target(c, k)
                  \/ Hit(c) \/ Miss(c) \/ Lead(c) \/ Follow(c)
                  \/ \E n \in Counts : LeadEndOk(c, n)
-                 \/ LeadEndErr(c) \/ LeadRebalance(c)
+                 \/ LeadEndErr(c) \/ LeadFail(c) \/ LeadRebalance(c)
                  \/ (At(c, "pick") /\ \E x \in Ins(PickFrom(c)) \cup {NoInst} : Pick(c, x))
                  \/ Return(c)
 
@@ -271,13 +278,13 @@ LiveSpec == Spec /\ WF_vars(WatcherStep) /\ \A c \in Callers : WF_vars(CallerSte
 --------------------------------------------------------------------------------------------------------------
 (* The property *)
 
-Ats == {"idle", "target", "miss", "resolve", "resolved", "follow", "pick", "picked", "error"}
+Ats == {"idle", "target", "miss", "resolve", "resolved", "failed", "follow", "pick", "picked", "error"}
 TypeOK == /\ nres = Len(ver) /\ nres <= MaxRes
           /\ \A k \in Keys : cache[k] \in 0 .. Len(ent) /\ bal[k] \in 0 .. nres
           /\ \A c \in Callers : pc[c].at \in Ats /\ pc[c].e \in 0 .. Len(ent) /\ pc[c].v \in 0 .. nres
           /\ rf.at \in {"wait", "resolve", "resolved", "stored"}
 
-Resolving(k) == {c \in Callers : pc[c].k = k /\ pc[c].at \in {"resolve", "resolved"}}
+Resolving(k) == {c \in Callers : pc[c].k = k /\ pc[c].at \in {"resolve", "resolved", "failed"}}
 
 \* (2)
 SingleFlight == \A k \in Keys : /\ Cardinality(Resolving(k)) <= 1
